@@ -211,6 +211,10 @@ def install_env(mods):
     mods['ikesa'].time = fake_time
     mods['ikesa'].random = fake_random
     mods['xfrm'].random = fake_random
+    # any other module of the tree that imported the clock (a changed tree may do so) gets the same virtual clock
+    for mod in mods.values():
+        if getattr(mod, 'time', None) is _time:
+            mod.time = fake_time
     mods['message'].SystemRandom = _SysRandom
     mods['ikesa'].json = _Json
     mods['ikesa'].traceback = types.SimpleNamespace(print_exc=lambda *a, **k: None)
@@ -760,6 +764,10 @@ class LoopEnd(BaseException):
     """raised by the scripted select() when the script is exhausted: the only way out of `while True`"""
 
 
+class LoopWedged(BaseException):
+    """the daemon keeps calling select() with arguments the real select() rejects: it never waits for an event again"""
+
+
 class FakeSock:
     def __init__(self, loop, kind, family=None):
         self.loop, self.kind, self.family = loop, kind, family
@@ -822,6 +830,7 @@ class Loop:
         self.send_exc = OSError
         self.tick_s = tick_s
         self.iterations = 0
+        self.bad_select = 0
         self.on_iteration = None
 
     def run(self, events):
@@ -842,6 +851,20 @@ class Loop:
                                      gaierror=_socket.gaierror, error=_socket.error)
 
         def select(rlist, wlist, xlist, timeout=None):
+            # the contract of the real select(): the timeout is None or a non-negative number (checked before anything is waited for)
+            if timeout is not None:
+                if not isinstance(timeout, (int, float, Dur)):
+                    loop.bad_select += 1
+                    if loop.bad_select > 100:
+                        raise LoopWedged('select() was called 100 times in a row with a timeout that is not a number: main_loop spins without waiting for events')
+                    raise TypeError('timeout must be a float or None')
+                if timeout < 0:
+                    loop.bad_select += 1
+                    if loop.bad_select > 100:
+                        raise LoopWedged('select() was called 100 times in a row with a negative timeout (ValueError each time): main_loop spins without '
+                                         'ever waiting for an event again')
+                    raise ValueError('timeout must be non-negative')
+            loop.bad_select = 0
             if loop.on_iteration is not None and loop.iterations:
                 loop.on_iteration(loop)
             if not loop.events:
